@@ -114,6 +114,15 @@ def run(ctx, R, tier):
     ok = bool(closes) and gcfg.all_paths_pass([gcfg.entry], lambda n: n in closes or n in truthy, targets=targets)
     R.check(ok, "C08-R2", "handleConnection|close-on-failure", "every failing path closes the connection before returning", g.loc(),
             "a failed handshake leaves the connection open (what the peer sends next could still be read)")
+    # ... and closes it at once: between the refused handshake and the close nothing waits for the peer (a read until it hangs up keeps the connection half open and
+    # its worker blocked for as long as the refused peer likes)
+    WAITS = {"recv", "recv_into", "recvfrom", "accept", "wait", "sleep", "select"}
+    hs_nodes = [n for c in ctx.calls_to(g, HANDSHAKE) for n in ctx.node_of(g, c)]
+    waiting = [n for n in gcfg.nodes for c in calls_in(n) if isinstance(c.func, ast.Attribute) and c.func.attr in WAITS and n not in hs_nodes]
+    blocked = [w for w in waiting if gcfg.path_exists(hs_nodes, lambda n, w=w: n is w) and gcfg.path_exists([w], lambda n: n in closes or n in falsy)]
+    R.check(not blocked, "C08-R2", "handleConnection|refusal-closes-without-waiting", "after a refused handshake the connection is closed without waiting for the peer", g.loc(blocked[0].ast) if blocked else g.loc(),
+            "`%s` waits for the refused peer before the connection is closed: a peer that stays connected and silent keeps a refused connection open and a worker blocked"
+            % (unparse(blocked[0].ast, 60) if blocked else ""))
 
     # ---------------------------------------------------------------- R3
     ev = ctx.fn("Pyro5.svr_multiplex.SocketServer_Multiplex.events")
@@ -218,6 +227,19 @@ def run(ctx, R, tier):
             ok = bool(cn) and all(any(cfg.dominates(x, n) for x in cn) for n in oks)
             R.check(ok, "C08-R4", "_handshake|%s-dominates-OK" % what, "the %s call dominates the CONNECTOK store" % what, f.loc(st),
                     "the handshake can be accepted without the %s having run (and raised) — e.g. the call sits in a conditional expression or behind a peer-controlled test" % what)
+        # ... and an exception of the validator is a refusal: no handler that can catch it (an inner `except KeyError:` around the call, say) leads on to the
+        # CONNECTOK store - the validator's own KeyError / whatever it raises must end in the connect failure
+        vcalls = [c for c in ctx.calls_to(f, "Pyro5.server.Daemon.validateHandshake")]
+        vn = [n for c in vcalls for n in ctx.node_of(f, c)]
+        swallowed = None
+        for x in vn:
+            for e in x.succ:
+                if e.kind == "exc" and (e.dst in oks or cfg.path_exists([e.dst], lambda n: n in oks)):
+                    swallowed = e.dst
+        R.check(bool(vn) and swallowed is None, "C08-R4", "_handshake|validator-exception-is-a-refusal", "no handler that catches an exception of validateHandshake() continues to the CONNECTOK store",
+                f.loc(swallowed.ast) if swallowed is not None and getattr(swallowed, "ast", None) is not None else f.loc(),
+                "an exception raised by (or while calling) the handshake validator is caught by a handler from which the handshake is still accepted: a validator that refuses by raising "
+                "that class, or a CONNECT that makes the call itself fail, is answered with CONNECTOK")
         rets = [n for n in cfg.nodes if n.kind == "stmt" and isinstance(n.ast, ast.Return)]
         for i, n in enumerate(sorted(rets, key=lambda n: n.lineno)):
             v = n.ast.value
